@@ -251,7 +251,8 @@ Inductive daction :=
 | DSpawnGated (p c : nat)     (* go parent.SpawnChild(c); the child's PreStart blocks at the gate *)
 | DSpawnRelease (c : nat)     (* let the child's PreStart return *)
 | DStop (a : nat)             (* go a.Shutdown() *)
-| DRelease (a : nat).         (* let a's PostStop return *)
+| DRelease (a : nat)          (* let a's PostStop return *)
+| DRestart (a : nat).         (* a.Restart() of a running actor while nothing else is going on *)
 
 Fixpoint first_some {A B} (f : A -> option B) (l : list A) : option B :=
   match l with
@@ -298,14 +299,31 @@ Definition drive1 (ws : bool) (s : st) (d : daction) : option st :=
                | None => Some s      (* not running: returns at once; stop in flight: the caller blocks on stopLocker *)
                end
   | DRelease a => step ws s (LPostEnd a)
+  | DRestart _ => None
   end.
 
 (* None result of drive1 = the action is refused by the implementation too (SpawnChild on a
    non-running parent returns ErrDead): state unchanged, flag 1 *)
+(* Restart of a running actor at a quiet point (no stop or SpawnChild in flight anywhere, the death
+   watch has nothing queued, no running actor's PostStop is gated): the subtree is stopped children
+   first, reaped, re-initialised and re-registered under the same identities.  What the harness can
+   see afterwards is what it saw before, so at this level a restart is the identity; the later
+   stops and reaps of the restarted actors must behave exactly as for first incarnations. *)
+Definition quiet_actor (x : actor) : bool :=
+  match sp x, spawning x with SIdle, [] => negb (stopping x) | _, _ => false end.
+Definition restart_ok (gated : list nat) (n : nat) (s : st) (a : nat) : bool :=
+  is_running (acts s a) && reg (acts s a)
+  && forallb (fun b => quiet_actor (acts s b) && negb (is_running (acts s b) && existsb (Nat.eqb b) gated)) (seq 0 n)
+  && match term s with [] => true | _ => false end.
+
 Definition drive (ws : bool) (gated : list nat) (n : nat) (s : st) (d : daction) : st * nat :=
-  match drive1 ws s d with
-  | Some s' => (quiesce ws gated n (64 * S n) s', 0)
-  | None => (s, 1)
+  match d with
+  | DRestart a => (s, if restart_ok gated n s a then 0 else 1)
+  | _ =>
+    match drive1 ws s d with
+    | Some s' => (quiesce ws gated n (64 * S n) s', 0)
+    | None => (s, 1)
+    end
   end.
 
 (* what the harness can see after quiescence, per actor 0..n-1:
